@@ -4,9 +4,11 @@ import (
 	"fmt"
 	"io"
 	"path/filepath"
+	"reflect"
 	"sort"
 
 	"github.com/sarchlab/akita/v5/hooking"
+	"github.com/sarchlab/akita/v5/mem/memcontrolprotocol"
 	"github.com/sarchlab/akita/v5/modeling"
 	"github.com/sarchlab/akita/v5/simulation"
 	"github.com/sarchlab/akita/v5/timing"
@@ -94,6 +96,7 @@ type Observers struct {
 	Aggregate  bool `json:"aggregate"`   // total/average/busy/tag-count tracers on every component
 	EngineHook bool `json:"engine_hook"` // a hook on the engine
 	PortHooks  bool `json:"port_hooks"`  // a hook on every port
+	BufHooks   bool `json:"buf_hooks"`   // a hook on every hookable buffer/pipeline inside the State of every level and bottom
 	Monitor    bool `json:"monitor"`     // reserved
 }
 
@@ -110,10 +113,99 @@ type Outcome struct {
 	EndTime uint64            `json:"end_time"`
 	Tasks   int               `json:"tasks"`
 	Err     string            `json:"err,omitempty"`
+	CtlLog  []CtlRsp          `json:"ctl_log,omitempty"` // control acknowledgements (time, step, success)
+	// BufHooked is how many in-State buffers got a hook (not compared).
+	BufHooked int `json:"buf_hooked,omitempty"`
+}
+
+// hookable is what queueing.Buffer (and anything else that can be observed
+// inside a State) offers.
+type hookable interface {
+	AcceptHook(hooking.Hook)
+}
+
+// attachStateHooks walks v (a pointer to a component's State) and attaches h to
+// every addressable value whose pointer type is hookable (queueing.Buffer
+// fields, slices of them, nested structs). It returns how many were attached.
+func attachStateHooks(v reflect.Value, h hooking.Hook) int {
+	n := 0
+	switch v.Kind() {
+	case reflect.Pointer:
+		if !v.IsNil() {
+			n += attachStateHooks(v.Elem(), h)
+		}
+	case reflect.Struct:
+		if v.CanAddr() && v.Addr().CanInterface() {
+			if hk, ok := v.Addr().Interface().(hookable); ok {
+				hk.AcceptHook(h)
+				return 1
+			}
+		}
+		for i := 0; i < v.NumField(); i++ {
+			if v.Type().Field(i).IsExported() {
+				n += attachStateHooks(v.Field(i), h)
+			}
+		}
+	case reflect.Slice, reflect.Array:
+		for i := 0; i < v.Len(); i++ {
+			n += attachStateHooks(v.Index(i), h)
+		}
+	}
+	return n
+}
+
+// AttachBufferHooks attaches h to every hookable buffer in the State of every
+// level and bottom component.
+func (a *Assembly) AttachBufferHooks(h hooking.Hook) int {
+	n := 0
+	var comps []any
+	for _, c := range a.LevelComps {
+		comps = append(comps, c)
+	}
+	for _, c := range a.Bottoms {
+		comps = append(comps, c)
+	}
+	for _, c := range comps {
+		v := reflect.ValueOf(c)
+		for v.Kind() == reflect.Pointer || v.Kind() == reflect.Interface {
+			if v.IsNil() {
+				break
+			}
+			v = v.Elem()
+		}
+		if v.Kind() != reflect.Struct {
+			continue
+		}
+		st := v.FieldByName("State")
+		if st.IsValid() && st.CanAddr() {
+			n += attachStateHooks(st, h)
+		}
+	}
+	return n
 }
 
 // RunObserved runs spec with the given observers attached.
 func RunObserved(spec AssemblySpec, o Observers, dir string) (out Outcome, rec *RecTracer) {
+	return RunObservedCtl(spec, o, dir, 0, nil)
+}
+
+// ResetSteps is the bottom-up list of control Resets of every bottom and level
+// of a (one acknowledged Reset at a time, lower units first).
+func (a *Assembly) ResetSteps() []CtlStep {
+	var steps []CtlStep
+	for _, b := range a.Bottoms {
+		steps = append(steps, CtlStep{Target: string(b.GetPortByName("Control").AsRemote()), Cmd: int(memcontrolprotocol.CmdReset)})
+	}
+	for i := len(a.LevelComps) - 1; i >= 0; i-- {
+		steps = append(steps, CtlStep{Target: string(a.LevelComps[i].GetPortByName("Control").AsRemote()), Cmd: int(memcontrolprotocol.CmdReset)})
+	}
+	return steps
+}
+
+// RunObservedCtl is RunObserved with an optional mid-run control phase: when
+// ctlAt > 0 the run is taken to that instant, the steps (nil: ResetSteps) are
+// handed to the control agent, and the run continues to quiescence.
+func RunObservedCtl(spec AssemblySpec, o Observers, dir string, ctlAt uint64, steps []CtlStep) (out Outcome, rec *RecTracer) {
 	timing.ResetIDGenerator()
 	var a *Assembly
 	var engine *timing.SerialEngine
@@ -151,9 +243,21 @@ func RunObserved(spec AssemblySpec, o Observers, dir string) (out Outcome, rec *
 			p.AcceptHook(&nopHook{})
 		}
 	}
+	if o.BufHooks {
+		out.BufHooked = a.AttachBufferHooks(&nopHook{})
+	}
 	a.Kick()
+	if ctlAt > 0 {
+		_ = engine.RunUntil(timing.VTimeInPicoSec(ctlAt))
+		if steps == nil {
+			steps = a.ResetSteps()
+		}
+		a.Ctl.State.Steps = append(a.Ctl.State.Steps, steps...)
+		a.Ctl.TickLater()
+	}
 	_ = engine.Run()
 	out.EndTime = uint64(engine.CurrentTime())
+	out.CtlLog = append([]CtlRsp(nil), a.Ctl.State.Log...)
 	out.Backing = map[uint64][]byte{}
 	for _, d := range a.Drivers {
 		out.Logs = append(out.Logs, append([]RspRec(nil), d.State.Log...))
@@ -190,6 +294,14 @@ func DiffOutcome(a, b Outcome) string {
 	}
 	if a.EndTime != b.EndTime {
 		return fmt.Sprintf("end time %d vs %d", a.EndTime, b.EndTime)
+	}
+	if len(a.CtlLog) != len(b.CtlLog) {
+		return fmt.Sprintf("%d vs %d control acknowledgements", len(a.CtlLog), len(b.CtlLog))
+	}
+	for i := range a.CtlLog {
+		if a.CtlLog[i] != b.CtlLog[i] {
+			return fmt.Sprintf("control acknowledgement %d: %+v vs %+v", i, a.CtlLog[i], b.CtlLog[i])
+		}
 	}
 	for d := range a.Logs {
 		if len(a.Logs[d]) != len(b.Logs[d]) {
